@@ -734,7 +734,7 @@ def write_rules(ctx, r1, r2):
         outs = ctx.px(R["write"], inline=lambda c, d: True, setup=setup, key="w")
         sites = CEN.census(ctx, outs, typelevel=lock_expect_tl)
         for key, s in sorted(sites.items()):
-            if s.failed and s.kind == "assert" and s.op == "Overflow(Add)" and "flush" in s.fn and all("ready" in f[1] or "state" in f[1] for f in s.failed):
+            if s.failed and s.kind == "assert" and s.op == "Overflow(Add)" and all(("." + R["bytes_f"]) in f[1] for f in s.failed):
                 ctx.ok(r2, "write (%s): %s -- queued-bytes counter: the sum of the lengths of distinct live Vec<u8> allocations cannot exceed the address space" % (label, key), nontrivial=False)
             elif s.failed:
                 ctx.violation(r2, "%s|%s|%s" % (r2, label, key), "write (%s): %s (%s)" % (label, s.failed[0][0], s.failed[0][1][:100]), where=F.loc(s.span))
